@@ -129,7 +129,7 @@ def gen_shape(rng, pool, allow_num=True):
     return {'k': 'sym', 'name': rng.choice(['x', 'y']), 'keys': keys}
 
 
-def gen_trace10(rng, tier='quick', crit_names=()):
+def gen_trace10(rng, tier='quick', crit_names=(), targets=()):
     dims = [1, 2, 3, 4]
     wts = [0.05, 0.45, 0.38, 0.12]
     d = rng.choices(dims, weights=wts)[0]
@@ -275,6 +275,11 @@ def gen_trace10(rng, tier='quick', crit_names=()):
         anchors = [None, None] + list(crit_names)
         for i, _ in enumerate(prog):
             if rng.random() < rate:
+                if targets and rng.random() < 0.5:
+                    q, ln = rng.choice(targets)
+                    faults.append({'caller': 0, 'op': i, 'kind': rng.choice(['interrupt', 'alloc_fail']), 'anchor': None,
+                                   'skip': 0, 'line': [q, ln], 'nth': rng.choice([1, 1, 1, 2, 3])})
+                    continue
                 u = rng.random()
                 skip = rng.randint(0, 30) if u < 0.55 else rng.randint(30, 400) if u < 0.9 else rng.randint(400, 4000)
                 faults.append({'caller': 0, 'op': i, 'kind': rng.choice(['interrupt', 'alloc_fail']),
